@@ -557,7 +557,15 @@ func fixedCases() []Case {
 	top := uint64(math.MaxUint64)
 	one := &RV{Start: 1, End: 2, ConfVer: 1, Version: 1}
 	two := &RV{Start: 2, End: 3, ConfVer: 1, Version: 1}
+	// the uint64 boundary of loadRegions: 312 regions ending at id 2^64-1 and a budget that lets pages of 156..311
+	// items through, so the limit settles at 156 and the second (full) page ends at the maximum id: nextID wraps to 0
+	wrap := Case{Backend: "mem"}
+	for i := 0; i < 312; i++ {
+		wrap.Ops = append(wrap.Ops, Op{K: "saveregion", ID: top - 311 + uint64(i), V: &RV{Start: uint64(i+1) * 10, End: uint64(i+2) * 10, ConfVer: 1, Version: 1}})
+	}
+	wrap.Ops = append(wrap.Ops, Op{K: "budget", P: int64(200 * proto.Size(wrap.Ops[0].V.region(wrap.Ops[0].ID)))}, Op{K: "loadregions"}, Op{K: "loadcache"})
 	return []Case{
+		wrap,
 		// S9 on the stores namespace and on the regions namespace
 		{Backend: "mem", Ops: []Op{{K: "savestore", ID: 1, P: 1}, {K: "savestore", ID: top, P: 2}, {K: "loadstores"}}},
 		{Backend: "mem", Ops: []Op{{K: "saveregion", ID: 1, V: one}, {K: "saveregion", ID: top, V: two}, {K: "loadregions"}}},
